@@ -100,6 +100,9 @@ func genG05(repo string, w *Out) error {
 	if err := g05Config(repo, w); err != nil {
 		return err
 	}
+	if err := g05PacResolver(repo, w); err != nil {
+		return err
+	}
 	return g05Stdlib(w)
 }
 
@@ -951,5 +954,52 @@ func g05Net(repo string, w *Out) error {
 		return fmt.Errorf("command/run/run.go: c.httpTransportConfig.RedirectFunc = forwarder.DialRedirectFromHostPortPairs(c.connectTo) not found")
 	}
 	w.DefBool("connect_to_wired", true)
+	return nil
+}
+
+// ---------------------------------------------------------------- pac/pac.go: the resolver is a function of its query
+// FindProxyForURL may use the receiver only to call the script (pr.fn, pr.vm): any other field read or any
+// assignment to a receiver field makes an answer depend on earlier look-ups.
+func g05PacResolver(repo string, w *Out) error {
+	f, err := Parse(repo, "pac/pac.go")
+	if err != nil {
+		return err
+	}
+	fd, err := f.Func("ProxyResolver.FindProxyForURL")
+	if err != nil {
+		return err
+	}
+	recv := fd.Recv.List[0].Names[0].Name
+	var fields []string
+	seen := map[string]bool{}
+	writes := false
+	ast.Inspect(fd.Body, func(x ast.Node) bool {
+		switch n := x.(type) {
+		case *ast.SelectorExpr:
+			if id, ok := n.X.(*ast.Ident); ok && id.Name == recv && !seen[n.Sel.Name] {
+				seen[n.Sel.Name] = true
+				fields = append(fields, n.Sel.Name)
+			}
+		case *ast.AssignStmt:
+			for _, l := range n.Lhs {
+				if strings.HasPrefix(f.Src(l), recv+".") {
+					writes = true
+				}
+			}
+		case *ast.IncDecStmt:
+			if strings.HasPrefix(f.Src(n.X), recv+".") {
+				writes = true
+			}
+		}
+		return true
+	})
+	w.DefStrList("pac_find_proxy_receiver_fields", fields)
+	w.DefBool("pac_find_proxy_writes_receiver", writes)
+	if !hasCall(f, fd.Body, recv+".fn(goja.Undefined(), "+recv+".vm.ToValue(u.String()), "+recv+".vm.ToValue(hostname))") {
+		return fmt.Errorf("pac.go FindProxyForURL: the script call pr.fn(goja.Undefined(), pr.vm.ToValue(u.String()), pr.vm.ToValue(hostname)) not found")
+	}
+	if !strings.Contains(f.Src(fd.Body), `if hostname == "" { hostname = u.Hostname() }`) {
+		return fmt.Errorf("pac.go FindProxyForURL: `if hostname == \"\" { hostname = u.Hostname() }` not found")
+	}
 	return nil
 }
